@@ -396,15 +396,22 @@ func Durationp(key string, val *time.Duration) Field {
 // Object constructs a field with the given key and ObjectMarshaler. It
 // provides a flexible, but still type-safe and efficient, way to add map- or
 // struct-like user-defined types to the logging context. The struct's
-// MarshalLogObject method is called lazily.
+// MarshalLogObject method is called lazily. A nil ObjectMarshaler is logged as
+// an explicit null, like the nil pointers accepted by the "p" constructors.
 func Object(key string, val zapcore.ObjectMarshaler) Field {
+	if val == nil {
+		return nilField(key)
+	}
 	return Field{Key: key, Type: zapcore.ObjectMarshalerType, Interface: val}
 }
 
 // Inline constructs a Field that is similar to Object, but it
 // will add the elements of the provided ObjectMarshaler to the
-// current namespace.
+// current namespace. A nil ObjectMarshaler adds nothing.
 func Inline(val zapcore.ObjectMarshaler) Field {
+	if val == nil {
+		return Skip()
+	}
 	return zapcore.Field{
 		Type:      zapcore.InlineMarshalerType,
 		Interface: val,
